@@ -430,3 +430,8 @@ func C18_ZeroHeight() { focus = "C18"; sceneGenesis(gnQuick) }
 // C20: prices written as decimal numbers of any length (the pricing schema admits them)
 func C20_BindDecimalPrice()   { focus = "C20"; sceneBindingMsg(opBind, BindOpts{Huge: true, MsgDec: true}) }
 func C20_UpdateDecimalPrice() { focus = "C20"; sceneBindingMsg(opUpdBinding, BindOpts{Huge: true, MsgDec: true}) }
+
+// C03/C04/C14: a zero-height export hands back fees and earnings, not deposits
+func C03_Genesis() { focus = "C03"; sceneGenesis(gnQuick) }
+func C04_Genesis() { focus = "C04"; sceneGenesis(gnQuick) }
+func C14_Genesis() { focus = "C14"; sceneGenesis(gnQuick) }
